@@ -790,9 +790,11 @@ def parse_if_range_header(value: str | None) -> ds.IfRange:
     """
     if not value:
         return ds.IfRange()
-    date = parse_date(value)
-    if date is not None:
-        return ds.IfRange(date=date)
+    # an entity tag is always quoted, a date never is
+    if not value.lstrip().startswith(('"', 'W/"', 'w/"')):
+        date = parse_date(value)
+        if date is not None:
+            return ds.IfRange(date=date)
     # drop weakness information
     return ds.IfRange(unquote_etag(value)[0])
 
